@@ -32,7 +32,7 @@ Record c03_model := mkModel {
 }.
 
 Record c03_case := mkCase {
-  k_phase : Z;                                    (* 0 = DeliverTx, 1 = BeginBlock, 2 = EndBlock+Commit *)
+  k_phase : Z;                                    (* 0 = DeliverTx, 1 = BeginBlock, 2 = EndBlock+Commit, 3 = genesis round trip *)
   k_signers : list Z;
   k_bal : list (Z * string * Z * Z);              (* account, denom, before, after -- changed entries only *)
   k_claims : list (Z * string * Z * option Z * string * Z * Z);
@@ -259,6 +259,11 @@ Definition case_clauses (c : c03_case) : list string :=
   if k_phase c =? 0 then
     flat_map (fun e => let '(a, d, b, f) := e in coin_clause c a d b f) (k_bal c) ++
     flat_map (claim_clause c "") (k_claims c) ++ rotation_clauses c
+  else if k_phase c =? 3 then
+    (* genesis export + import of the modules holding the monitored claims: right afterwards every
+       balance and every claim record is what it was *)
+    map (fun e => String.append "genesis-claim-" (row_kind e)) (k_claims c) ++
+    (match k_bal c with [] => [] | _ => ["genesis-coins"] end)
   else
     (* begin / end of block: nobody signed; user balances never go down; a user's recorded claims
        (every kind, per denom) may only grow, be paid out to their owner, or be converted into
